@@ -333,6 +333,29 @@ class Typestate:
         return None
 
 
+def _def_fact_key(F, atom):
+    """(fact key, polarity) of the defining expression of the local tested by `atom`, when that
+    definition is the only one reaching the test and is free of side effects."""
+    from . import canon
+    an = F.nodes[F.strip(atom)]
+    if an.get("k") != "ref" or an.get("dk") != "var":
+        return None
+    d = canon.reaching_def(F, an["n"], atom)
+    if not isinstance(d, int):
+        return None
+    for j in F.descendants(d):
+        nd = F.nodes[j]
+        if nd.get("k") in ("asm", "atomic") or (nd.get("k") == "bin" and nd.get("asg")) or \
+                (nd.get("k") == "un" and nd["op"] in ("post++", "post--", "pre++", "pre--")):
+            return None
+        if nd.get("k") == "call" and not _pure_callee(nd.get("fn")):
+            return None
+    if F.nodes[F.strip(d)].get("k") in ("int", "ref"):
+        return None
+    key, t, _j = cond_key(F, d, True)
+    return key, t
+
+
 def _pure_for_fact(F, i):
     return not F.has_call(i)
 
@@ -452,6 +475,12 @@ def simulate(F, ts, init=None, max_states=200000, entry_facts=None, entry_consts
             if key is not None and ts.track_facts:
                 nf = dict(facts)
                 nf[key] = truth
+                # the tested local still holds the value of a side-effect-free expression: the same fact
+                # holds for that expression (`p = get_ptr(h); if (!p) ...; if (!get_ptr(h)) ...`)
+                if aj is not None:
+                    dk = _def_fact_key(F, aj)
+                    if dk is not None:
+                        nf[dk[0]] = truth if dk[1] else (not truth)
             if implied is not None:
                 nc = dict(consts)
                 nc[implied[0]] = implied[1]
